@@ -27,13 +27,13 @@ def shard(ctx, budget_s):
         for _ in range(60):
             tr = rng.choice(["tcp", "udp"])
             b = sshghost.gen_banner(rng)
-            if lab.identified(b, tr) == sigref.SSH:
+            if sigref.identify(b, tr == "udp") == sigref.SSH:
                 a = lab.ask(b, tr)
                 ctx.stats["ssh_positive"] += 1
                 ctx.nontrivial("ssh", b, tr)
                 for e in sshghost.check_ssh(a.rep):
                     ctx.violation("ssh:" + e.split(" ")[0], "%s; identification %r over %s" % (e, b[:80], tr), observed=(a.rep or b"").hex()[:100])
-            if rng.random() < 0.2 and lab.identified(b, "tcp") == sigref.SSH and b.endswith(b"\r\n"):
+            if rng.random() < 0.2 and sigref.identify(b, False) == sigref.SSH and b.endswith(b"\r\n"):
                 # SSH banners are parsed per segment once identified: only cuts inside the signature are constrained
                 cutp = rng.randrange(1, 7)
                 reps = lab.ask_segments(b, [cutp])
@@ -50,7 +50,7 @@ def shard(ctx, budget_s):
                 ctx.violation("ssh_answered:" + kind, "malformed identification (%s) %r answered with %r" % (kind, bad[:60], a.rep[:30]),
                               observed=a.rep.hex()[:100], expected="silence")
             g = sshghost.gen_ghost(rng)
-            if lab.identified(g, tr) == sigref.GHOST:
+            if sigref.identify(g, tr == "udp") == sigref.GHOST:
                 a = lab.ask(g, tr)
                 ctx.stats["ghost_positive"] += 1
                 ctx.nontrivial("ghost", g[:64], len(g), tr)
